@@ -198,7 +198,7 @@ func TestC19Watcher(t *testing.T) {
 				trace = append(trace, fmt.Sprintf("watcher stopped after %d announcements: %v", pushed, firstLine(err)))
 				stopped = true
 				break feed
-			case <-time.After(20 * time.Second):
+			case <-time.After(3 * time.Minute):
 				ev.Infra(t, "the core does not take announcement %d (trace %v)", pushed, trace)
 			}
 		}
@@ -208,7 +208,7 @@ func TestC19Watcher(t *testing.T) {
 			select {
 			case err := <-served:
 				trace = append(trace, fmt.Sprintf("watcher stopped at end of stream: %v", firstLine(err)))
-			case <-time.After(20 * time.Second):
+			case <-time.After(3 * time.Minute):
 				ev.Infra(t, "the watcher does not return after the end of the stream (trace %v)", trace)
 			}
 		}
@@ -217,7 +217,7 @@ func TestC19Watcher(t *testing.T) {
 		if want < 0 {
 			want = nAnn
 		}
-		deadline := time.After(10 * time.Second)
+		deadline := time.After(60 * time.Second)
 		for n := 0; n < want; n++ {
 			select {
 			case <-arrived:
@@ -226,7 +226,7 @@ func TestC19Watcher(t *testing.T) {
 				k := len(got)
 				gotMu.Unlock()
 				// C19 is a safety property: a watcher that delivers less than it could hands nothing unverified out. Counted, not a violation.
-				rec.Discard(fmt.Sprintf("genuine-announcement-not-delivered-within-10s:%d-of-%d", k, want))
+				rec.Discard(fmt.Sprintf("genuine-announcement-not-delivered-within-60s:%d-of-%d", k, want))
 				n = want
 			}
 		}
